@@ -17,7 +17,7 @@ def run(chk, tier):
     chk.floor("R-CAP", "out-array accesses in hwloc__distances_get", no, 2)
     chk.rule("R-EXTENT", "bulk operations on one distances array field agree on their extent")
     ne = extent.run(chk, P, list(P.units), fields=set(FIELDS))
-    chk.floor("R-EXTENT", "bulk operations on distances arrays", ne, 15)
+    chk.floor("R-EXTENT", "bulk operations on distances arrays", ne, 11)
     chk.rule("R-GUARDKILL", "a transform nulls an object only under is_nvswitch() of that object")
     ng = lists.guarded_kill(chk, P)
     chk.floor("R-GUARDKILL", "NULL stores into objs[] in transforms", ng, 1)
